@@ -1647,3 +1647,194 @@ func checkFieldPathsTolerateNil(w *World, r *Report) {
 	}
 	r.floor("field-path accesses on render paths", n, 1)
 }
+
+// ---------------------------------------------------------------- R05.20
+//
+// "Not found" is an answer, not an offset.  strings.Index & co. return -1 when the needle is
+// absent; a result that is used as it stands — as a bound of a slice expression or as an index —
+// must be known non-negative at that point (a test of the result on every path, or a phi all of
+// whose incoming values are non-negative on their edges): x[:-1] and x[-1] panic.  Results that
+// are first combined arithmetically (i+1, i-len(..)) are left to the other sign rules.
+func checkSearchResultsTested(w *World, r *Report) {
+	s := newSigner(w)
+	n := 0
+	isSearch := func(v ssa.Value) bool {
+		c, ok := v.(*ssa.Call)
+		if !ok {
+			return false
+		}
+		f := calleeFunc(c)
+		return f != nil && f.Pkg() != nil && indexFuncs[f.Pkg().Path()+"."+f.Name()]
+	}
+	var fromSearch func(v ssa.Value, d int) bool
+	fromSearch = func(v ssa.Value, d int) bool {
+		v = unspill(v)
+		if v == nil || d > 3 {
+			return false
+		}
+		if isSearch(v) {
+			return true
+		}
+		if ph, ok := v.(*ssa.Phi); ok {
+			for _, e := range ph.Edges {
+				if fromSearch(e, d+1) {
+					return true
+				}
+			}
+		}
+		return false
+	}
+	for _, fn := range w.pkgFuncs() {
+		instrsOf(fn, func(in ssa.Instruction) {
+			var bounds []ssa.Value
+			what := ""
+			switch x := in.(type) {
+			case *ssa.Slice:
+				bounds, what = []ssa.Value{x.Low, x.High}, "slice bound"
+			case *ssa.Index:
+				bounds, what = []ssa.Value{x.Index}, "index"
+			case *ssa.IndexAddr:
+				bounds, what = []ssa.Value{x.Index}, "index"
+			case *ssa.Lookup:
+				if _, isMap := x.X.Type().Underlying().(*types.Map); !isMap {
+					bounds, what = []ssa.Value{x.Index}, "index"
+				}
+			}
+			for _, b := range bounds {
+				if b == nil || !fromSearch(b, 0) {
+					continue
+				}
+				n++
+				construct := what + " taken from a search result is known to be an offset"
+				q := &signQuery{seen: map[ssa.Value]bool{}}
+				if s.atLeast(unspill(b), 0, point{in.Block(), -1}, q) || searchFound(fn, unspill(b), in) {
+					r.ok("R05.20", ssaName(fn), construct, w.posOf(in.Pos()), "the result was tested (found) on every path to this use", true)
+				} else {
+					r.bad("R05.20", ssaName(fn), construct, w.posOf(in.Pos()), fmt.Sprintf("the result of the search is used as %s without a test that the needle was found (%v): for an input without the needle it is -1 and the expression panics", what, q.why))
+				}
+			}
+		})
+	}
+	r.floor("search results used directly as bounds or indices", n, 3)
+}
+
+// searchFound: on every path to `use`, a branch condition says that the search whose result is v
+// succeeded: v != -1, v >= 0, v > c (c >= -1), v == c (c >= 0), or strings.Contains / bytes.Contains
+// of the same haystack and needle was true.  v is a search call or a phi over search calls (then
+// the tests must be on the phi itself).
+func searchFound(fn *ssa.Function, v ssa.Value, use ssa.Instruction) bool {
+	sc, _ := v.(*ssa.Call)
+	// two facts: one about v (dies where v is computed anew), one about the haystack containing
+	// the needle (dies where the haystack value is computed anew)
+	return searchFoundBy(fn, v, sc, use, false) || (sc != nil && searchFoundBy(fn, v, sc, use, true))
+}
+
+func searchFoundBy(fn *ssa.Function, v ssa.Value, sc *ssa.Call, use ssa.Instruction, byContains bool) bool {
+	fl := &boolFlow{fn: fn, entry: false}
+	var dies ssa.Value = v
+	if byContains {
+		if len(sc.Call.Args) != 2 {
+			return false
+		}
+		dies = unspill(sc.Call.Args[0])
+	}
+	fl.step = func(in ssa.Instruction, st bool) bool {
+		if val, ok := in.(ssa.Value); ok && val == dies {
+			return false
+		}
+		return st
+	}
+	fl.edge = func(b *ssa.BasicBlock, i int) bool {
+		return anyEdgeFact(b, i, func(cv ssa.Value, trueIdx int) bool {
+			onTrue := i == trueIdx
+			if !byContains {
+				if _, isCall := cv.(*ssa.Call); isCall {
+					return false
+				}
+			} else if _, isCall := cv.(*ssa.Call); !isCall {
+				return false
+			}
+			if c, ok := cv.(*ssa.Call); ok && sc != nil && onTrue {
+				f := calleeFunc(c)
+				if f != nil && f.Pkg() != nil && (f.Pkg().Path() == "strings" || f.Pkg().Path() == "bytes") && strings.HasPrefix(f.Name(), "Contains") && len(c.Call.Args) == 2 && len(sc.Call.Args) == 2 {
+					g := calleeFunc(sc)
+					// Contains ~ Index/LastIndex, ContainsRune ~ IndexRune, ContainsAny ~ IndexAny/LastIndexAny
+					suffix := strings.TrimPrefix(strings.TrimPrefix(g.Name(), "Last"), "Index")
+					if suffix == "Byte" {
+						suffix = "x"
+					}
+					if strings.TrimPrefix(f.Name(), "Contains") == suffix && sameValue(unspill(c.Call.Args[0]), unspill(sc.Call.Args[0])) && sameOrEqualConst(c.Call.Args[1], sc.Call.Args[1]) {
+						return true
+					}
+				}
+				return false
+			}
+			bo, ok := cv.(*ssa.BinOp)
+			if !ok {
+				return false
+			}
+			op, l, rgt := bo.Op, bo.X, bo.Y
+			if !onTrue {
+				switch op {
+				case token.LSS:
+					op = token.GEQ
+				case token.LEQ:
+					op = token.GTR
+				case token.GTR:
+					op = token.LEQ
+				case token.GEQ:
+					op = token.LSS
+				case token.EQL:
+					op = token.NEQ
+				case token.NEQ:
+					op = token.EQL
+				default:
+					return false
+				}
+			}
+			// bring v to the left
+			if unspill(rgt) == v {
+				l, rgt = rgt, l
+				switch op {
+				case token.LSS:
+					op = token.GTR
+				case token.LEQ:
+					op = token.GEQ
+				case token.GTR:
+					op = token.LSS
+				case token.GEQ:
+					op = token.LEQ
+				}
+			}
+			if unspill(l) != v {
+				return false
+			}
+			c, isC := intConst(rgt)
+			if !isC {
+				return false
+			}
+			switch op {
+			case token.NEQ:
+				return c == -1
+			case token.EQL:
+				return c >= 0
+			case token.GEQ:
+				return c >= 0
+			case token.GTR:
+				return c >= -1
+			}
+			return false
+		})
+	}
+	fl.solve()
+	return fl.at(use)
+}
+
+func sameOrEqualConst(a, b ssa.Value) bool {
+	ca, okA := a.(*ssa.Const)
+	cb, okB := b.(*ssa.Const)
+	if okA && okB {
+		return ca.Value != nil && cb.Value != nil && types.Identical(ca.Type(), cb.Type()) && constant.Compare(ca.Value, token.EQL, cb.Value)
+	}
+	return sameValue(unspill(a), unspill(b))
+}
